@@ -60,6 +60,10 @@ CHECKS = {
          "W-TinyLFU instances share the key hasher and a pinned sketch seed so that the estimator verdicts are the same.", "differential PBT across BuildHashers (pairwise trace equality)"),
  "C20": ("E7 cost-tracker sequences", "exploration", "Generated SampledLFU sequences over hashed keys and signed costs against an exact map+sum model: room_left after every step, update/remove results, fill_sample shape and membership.",
          "Costs bounded so that i64 sums are representable.", "PBT over component op sequences, exact map + sum model"),
+ "C18": ("E4 fault enumeration in a supervised child process", "fault_enumeration", "For each generated history over all cache kinds, EVERY call into user code (Hash, Eq, Clone, Drop of keys and values, BuildHasher, Hasher::finish, KeyHasher, eviction callback) is a crash point: a dry run counts them, then the history is re-run once per index with a panic injected exactly there, the remaining operations run, the cache is inspected and dropped. Oracle: no double drop, no operation on a dead/freed/uninitialised object, everything reachable is live, no write-after-free, and the process survives (a supervising parent turns a dead child into the violation, with the journaled case as replay).",
+         "History length bounded (12 quick / 30 thorough); a shrinking resize after the injected panic is excluded by construction (it can spin forever: a hang, not a memory hazard) and counted; double panics are not generated.", "fault injection at every enumerated user-code call site of PBT-generated histories"),
+ "C19": ("E5 program generator + rustc verdict", "exploration", "Generated client programs: every public reference- or iterator-returning method (120, checked against a source scan) x misuse templates (hold across mutation, drop/outlive the cache, double &mut, cross-thread) each next to a positive control; cargo check's diagnostics are the oracle. The Send/Sync table of all cache and iterator types over the complete 4x4 lattice is computed by a generated program and judged by the implications soundness needs.",
+         "Finite template set: cannot show that no safe program misuses the API; rustc is trusted.", "generated compile-fail probes with positive controls (compiler as oracle) + exhaustive marker table"),
 }
 
 NOT_YET = {
